@@ -16,7 +16,9 @@ use std::sync::{Arc, Mutex};
 use std::time::{Duration, Instant};
 
 fn gen_model(rng: &mut Rng, max_n: usize) -> (GraphModel, Reach) {
-    let mut g = gen_graph(rng, &Knobs { max_n, allow_outside_inits: false, ..Knobs::default() });
+    // a third of the models are tree-shaped: there the eventually-verdicts are exact (see on_demand_case)
+    let forest = rng.pct(33);
+    let mut g = gen_graph(rng, &Knobs { max_n, allow_outside_inits: false, forest, ..Knobs::default() });
     let reach = g.reach();
     let k = rng.range(1, 4);
     gen_props_all_kinds(rng, &mut g, &reach, k);
@@ -328,6 +330,29 @@ fn on_demand_case(case: &mut Case) {
     if relevant(&names) != relevant(&bfs_names) || checker.unique_state_count() != bfs.unique || !checker.is_done() {
         case.violation("C19/on_demand/verdicts-or-counts-differ-from-bfs", wit(json!({"on_demand": names, "bfs": bfs_names, "unique": checker.unique_state_count(), "bfs_unique": bfs.unique})));
         return;
+    }
+    // Eventually-verdicts: never a counterexample where every maximal path satisfies the property,
+    // and on a tree-shaped space (every state has one route) exactly the oracle's verdict - the
+    // order in which the requests above made the checker evaluate states cannot matter there.
+    let is_forest = model.is_forest(&reach);
+    if is_forest {
+        case.add("on_demand_runs_on_tree_shaped_spaces", 1);
+    }
+    for (idx, (kind, slot)) in model.props.iter().enumerate() {
+        if *kind != stateright::Expectation::Eventually {
+            continue;
+        }
+        let exists = model.eventually_counterexample_exists(&model.labels[*slot]);
+        let reported = names.contains(NAMES[idx]);
+        case.add("on_demand_eventually_verdicts_compared", 1);
+        if reported && !exists {
+            case.violation("C19/on_demand/eventually-counterexample-reported-where-none-exists", wit(json!({"property": NAMES[idx]})));
+            return;
+        }
+        if is_forest && exists && !reported {
+            case.violation("C19/on_demand/eventually-counterexample-missed-on-a-tree-shaped-space", wit(json!({"property": NAMES[idx]})));
+            return;
+        }
     }
     // The depth the checker reports must be the depth of something it evaluated: the longest
     // path it showed to the visitor (every checker numbers a state one deeper than the state it
@@ -646,7 +671,8 @@ pub fn run(ctx: &mut Ctx) {
         sequences must be rejected. (on_demand) spawn_on_demand driven through the Checker API: nothing evaluated \
         before a request; with one worker the pending frontier is tracked exactly - a request for a pending state \
         evaluates exactly that state, a request for a non-pending one nothing; requests in random order, then \
-        run_to_completion must evaluate exactly the reachable set once, give BFS's verdicts and counts, and join \
+        run_to_completion must evaluate exactly the reachable set once, give BFS's always/sometimes verdicts and counts, report an eventually-counterexample only where the \
+        maximal-path oracle has one (and, on the tree-shaped third of the models, exactly there), and join \
         must return. (explorer) worker subprocesses run the real serve() on 127.0.0.1:<free port>; a minimal \
         HTTP/1.1 client walks random valid fingerprint paths (view must equal actions/next_state/format in order, \
         ignored actions included), mutates them into invalid ones (must be 404), polls /.status (monotone, \
